@@ -306,6 +306,21 @@ def rel_gate(v):
         res = lattice.analyse(build.REPO)
         bad = [r for r in res['results'] if not r['holds']]
         if bad: confirmed = True; notes.append('; '.join(f"{r['obligation']}: {r['counterexample']}" for r in bad[:3]))
+    elif rel == 'race':
+        # schedule-dependent counterexample: many fresh processes, 16 threads making their first call at once
+        entry = 'race_' + en(kind, v['api'])
+        bad = 0; runs = 0
+        for prof in ('release', 'dev'):
+            for _ in range(150):
+                nat = run_native([(entry, v['flags'] & 127, 16, v['buf'])], prof)[0]['impl']
+                runs += 1
+                if nat.get('panics', 0) or nat.get('distinct', 1) > 1 or nat.get('status') in ('CRASH', 'PANIC'): bad += 1
+            natives[prof] = {'processes': runs, 'with_divergent_or_panicking_threads': bad}
+            if bad: break
+        if bad:
+            confirmed = True; notes.append(f'{bad} of {runs} fresh processes had threads that panicked or disagreed on their first concurrent parse')
+        else:
+            return 'unconfirmable', {'native': natives, 'notes': [f'schedule-dependent: {runs} racing processes did not hit the interleaving; schedule found by the engine: {v.get("schedule")}']}
     elif rel == 'ub':
         return 'unconfirmable', {'native': {}, 'notes': ['out-of-allocation access / failed debug assertion inside a scanner, found on the real MIR with an exact-size buffer allocation; standard-level UB that no native run reliably confirms (triage by reading the MIR location)']}
     elif rel == 'cell':
